@@ -156,13 +156,42 @@ def form_group(s, form, op, L):
                 return 'confirmed', txt + ' PANIC'
             return ('confirmed' if got_n != want_n else 'mismatch'), txt
         return prog, judge
+    def replay_list(case):
+        """the difference only shows when the comparator is combined with one that opts the probe version in: `<text> <=v` / `<text> >=v`"""
+        names = rp.tok_names(case)
+        text = form_text(case['form'], case['op'], case['parts'], names)
+        vt = rp.version_text(case['v'], names, build=False)
+        prog = [rp.version_step('v', case['v'], names)]
+        for i, extra in enumerate(('<=' + vt, '>=' + vt)):
+            prog += [{'id': 'R%d' % i, 'op': 'range', 'text': text + ' ' + extra}, {'id': 's%d' % i, 'op': 'satisfies', 'r': 'R%d' % i, 'v': 'v'}]
+
+        def judge(native):
+            ps = [{'M': p['M'], 'm': p['m'], 'p': p['p'], 'pre': [rp.ident_raw(i, names) for i in p['pre']]} for p in case['parts']]
+            comps = npm.py_comps('tilde' if case['form'] == 'tilde-gt' else case['form'], OPTXT.get(case['op']), ps)
+            rv = O.raw_version(case['v'], names)
+            rv['build'] = []
+            bad, txts = False, []
+            for i, o in enumerate(('<=', '>=')):
+                want_n = npm.py_admits(comps + [(o, rv)], rv)
+                R = native.get('R%d' % i) or {}
+                got_n = bool(native.get('s%d' % i)) if R.get('ok') else False
+                txts.append('range %r parses to %s; satisfies(%s)=%s, node-semver 7.5.4 admits: %s' % (text + ' ' + o + vt, R.get('print', R.get('kind')), vt, got_n, want_n))
+                bad = bad or got_n != want_n
+            return ('confirmed' if bad else 'mismatch'), ' | '.join(txts)
+        return prog, judge
     cls = lambda case: classify(case['form'], case['op'], case['parts'])
-    hy = known_exclusions(h, form, op, parts)
+    hy = known_exclusions(s, h, form, op, parts, v)
     s.cover(h, 'a prerelease probe admitted through the comparator', [some, got, h.is_pre(v)])
     s.prove(h, '%s%s: a produced interval is satisfied exactly when node-semver\'s desugaring admits the version' % (form, (' ' + OPTXT[op]) if op else ''),
             hy + [some], got == want, decode=dec, replay=replay, cls=cls)
     s.prove(h, '%s%s: the comparator is dropped (None) only when node-semver admits nothing' % (form, (' ' + OPTXT[op]) if op else ''),
             hy + [NOT(some)], NOT(want), decode=dec, replay=replay, cls=cls)
+    nm = '%s%s' % (form, (' ' + OPTXT[op]) if op else '')
+    wi = O.o_within(h, bs, v)
+    s.prove(h, nm + ': bounds of a produced interval admit exactly the versions passing every node-semver comparator (prereleases included; needed when comparators are combined)',
+            hy + [some], wi == npm.allpass(h, comps, v), decode=dec, replay=replay_list, cls=cls)
+    s.prove(h, nm + ': within the bounds, the interval opts a prerelease in exactly when a node-semver comparator does', hy + [some, wi, h.is_pre(v)],
+            h.gate(bs, v) == npm.optin(h, comps, v), decode=dec, replay=replay_list, cls=cls)
     s.unreachable(h, '%s: no panic / overflow in the desugaring (components <= MAX_SAFE_INTEGER)' % form, [], pan, decode=dec, replay=replay, cls=cls)
     s.bounds_ok(h, form, [])
 
@@ -175,5 +204,38 @@ def hyphen_partials(h, e, k0):
     return parts[-2:]
 
 
-def known_exclusions(h, form, op, parts):
-    return []
+def prerelease_of(v, M, m, p):
+    return AND(v.fs[4].len != 0, v.fs[0].t == M, v.fs[1].t == m, v.fs[2].t == p)
+
+
+def known_exclusions(s, h, form, op, parts, v):
+    """hypotheses that cut out exactly the listed open findings (known_findings.json) while they still reproduce"""
+    out = []
+    if 'gte-zero-not-neutral' in s.known:
+        # node-semver rewrites the comparator `>=0.0.0` to `` (any); the crate keeps 0.0.0 as an inclusive lower bound, so
+        # prereleases of 0.0.0 that another comparator of the same alternative opts in are rejected
+        out.append(NOT(prerelease_of(v, 0, 0, 0)))
+    if 'lt-major-only' in s.known and form == 'primitive' and op == 'LessThan':
+        # `<M` is held as `<M.0.0` (node-semver: `<M.0.0-0`): differs only on prereleases of M.0.0
+        p = parts[0]
+        M = payload(p.fs[0], 'Some')[0].t
+        out.append(NOT(AND(is_variant(p.fs[0], 'Some'), is_variant(p.fs[1], 'None'), prerelease_of(v, M, 0, 0))))
+    return out
+
+
+def _witness(text, vtext, want):
+    def w():
+        prog = [{'id': 'R', 'op': 'range', 'text': text}, {'id': 'v', 'op': 'version', 'text': vtext}, {'id': 's', 'op': 'satisfies', 'r': 'R', 'v': 'v'}]
+
+        def judge(native):
+            R = native.get('R') or {}
+            got = bool(native.get('s')) if R.get('ok') else False
+            return ('confirmed' if got != want else 'fixed'), 'range %r parses to %s; satisfies(%s)=%s, node-semver 7.5.4 admits: %s' % (text, R.get('print', R.get('kind')), vtext, got, want)
+        return prog, judge
+    return w
+
+
+KNOWN = {
+    'gte-zero-not-neutral': _witness('* <=0.0.0-a', '0.0.0-a', True),
+    'lt-major-only': _witness('<1 <=1.0.0-beta', '1.0.0-beta', False),
+}
